@@ -147,6 +147,29 @@ check('C14', 'E1', 'exploration',
       'finding (navigation link to an index that has no file of its own).',
       'DESIGN.md 2/C14')
 
-_PENDING = {'C06': 'check not built yet in this round (planned: bounded exhaustive exploration, see DESIGN.md section 2)', 'C10': 'check not built yet in this round (planned: bounded exhaustive exploration, see DESIGN.md section 2)', 'C11': 'check not built yet in this round (planned: bounded exhaustive exploration, see DESIGN.md section 2)', 'C12': 'check not built yet in this round (planned: bounded exhaustive exploration, see DESIGN.md section 2)', 'C13': 'check not built yet in this round (planned: bounded exhaustive exploration, see DESIGN.md section 2)', 'C15': 'check not built yet in this round (planned: bounded exhaustive exploration, see DESIGN.md section 2)', 'C17': 'check not built yet in this round (planned: bounded exhaustive exploration, see DESIGN.md section 2)', 'C18': 'check not built yet in this round (planned: bounded exhaustive exploration, see DESIGN.md section 2)', 'C19': 'check not built yet in this round (planned: bounded exhaustive exploration, see DESIGN.md section 2)', 'C20': 'check not built yet in this round (planned: bounded exhaustive exploration, see DESIGN.md section 2)'}
+check('C12', 'E1', 'exploration',
+      'bounded exhaustive enumeration of (position, payload, configuration); differential html.parser event-stream oracle',
+      'For each of 14 text-bearing positions and 15 adversarial payloads (tags, end tags, script, entity-like strings including '
+      'the image-size pattern, attribute breakout, CDATA end, comment start, non-ASCII, U+2028) the document is rendered with '
+      'HTML5 default, HTML5 minimal and XHTML, with escape-high-chars off and on, and compared with the rendering of the same '
+      'document carrying a benign marker word: identical element sequence and attribute names, every text node and attribute '
+      'value equal after substituting marker -> displayed payload, pure ASCII bytes when escaping is on. Thorough adds every '
+      'ordered pair of positions with two payloads.',
+      'Trusted: html.parser; the displayed form of a payload is the typed characters after LaTeX dash substitution; attribute '
+      'values compared modulo white-space runs.',
+      'DESIGN.md 2/C12')
+
+check('C20', 'E3', 'fault_enumeration',
+      'exhaustive fault enumeration (every byte prefix, every 1-bit flip, windowed 2-bit flips, foreign files) + BFS over save/corrupt/restore histories',
+      'Label sets of seven really rendered documents (HTML5 and XHTML) are saved through the real call sites; round trips and '
+      'cross-document references are checked; then for every saved file EVERY byte prefix, EVERY single-bit flip, all 2-bit flips '
+      'in stated windows and 25 foreign files are restored and re-saved in forked workers under an address-space limit and '
+      'alarm: restore and persist must not raise, must leave later restores intact, and the re-saved file must load to the '
+      'complete current label set; a BFS (depth 5 / 7) over persist/restore/truncate/flip/replace/delete histories on one file '
+      'with two renderer keys runs in lock-step with a model.',
+      'Trusted: vp/refs/c20_model.py (abstract file content ABSENT/GARBAGE/DATA, no plasTeX import) and the reference unpickler.',
+      'DESIGN.md 2/C20')
+
+_PENDING = {'C06': 'check not built yet in this round (planned: bounded exhaustive exploration, see DESIGN.md section 2)', 'C10': 'check not built yet in this round (planned: bounded exhaustive exploration, see DESIGN.md section 2)', 'C11': 'check not built yet in this round (planned: bounded exhaustive exploration, see DESIGN.md section 2)', 'C13': 'check not built yet in this round (planned: bounded exhaustive exploration, see DESIGN.md section 2)', 'C15': 'check not built yet in this round (planned: bounded exhaustive exploration, see DESIGN.md section 2)', 'C17': 'check not built yet in this round (planned: bounded exhaustive exploration, see DESIGN.md section 2)', 'C18': 'check not built yet in this round (planned: bounded exhaustive exploration, see DESIGN.md section 2)', 'C19': 'check not built yet in this round (planned: bounded exhaustive exploration, see DESIGN.md section 2)', 'C20': 'check not built yet in this round (planned: bounded exhaustive exploration, see DESIGN.md section 2)'}
 for _p, _why in _PENDING.items():
     NOT_APPLICABLE.append({'property_id': _p, 'reason': _why})
